@@ -51,7 +51,13 @@ fn selftest_scenario(sc: &Scenario) -> RunOutput {
                     let (site, detail) = rest.split_once('|').unwrap_or(("", rest));
                     out.violation = Some(Violation { property: sc.property.clone(), oracle: "0-requested-value".into(), kind: "stale-buffer".into(), site: site.into(), detail: format!("{}: {}", type_name(sc.type_index), detail) });
                 }
-                None => out.harness_error = Some(format!("{}: {}", type_name(sc.type_index), e)),
+                None => match e.strip_prefix("MISMATCH:") {
+                    Some(rest) => {
+                        let (site, detail) = rest.split_once('|').unwrap_or(("", rest));
+                        out.violation = Some(Violation { property: sc.property.clone(), oracle: "0-requested-value".into(), kind: "emplace-mismatch".into(), site: site.into(), detail: format!("{}: {}", type_name(sc.type_index), detail) });
+                    }
+                    None => out.harness_error = Some(format!("{}: {}", type_name(sc.type_index), e)),
+                },
             },
         },
     }
